@@ -151,7 +151,7 @@ impl BufCheck {
         let prop = self.prop;
         let esz = std::mem::size_of::<T>();
         // Size: mostly k pages, sometimes a non-multiple (must be refused).
-        let pages = *src.pick(&[1usize, 1, 2, 3, 8]);
+        let pages = *src.pick(&[1usize, 1, 1, 2, 3, 5, 6, 7, 8, 2, 3]);
         let bad_size = src.chance(1, 12);
         let size = if bad_size {
             *src.pick(&[1000usize, 4097, 6144, 2048, 4095, 12289, 0])
